@@ -2,6 +2,13 @@ CONSTANTS NPts = 7
           NDays = 2
           NSlots = 4
           StitchCfg <- StitchMid
+          NDup = 3
+          MaxMult = 3
+          NDupSlots = 2
+          ZoneCfg <- ZonesBig
+          NZE = 4
+          NZ2 = 1
+          StitchDupCfg <- DupStitchBig
+          StitchNaNCfg <- NaNStitchBig
 INIT Init
 NEXT EvalGen
-
